@@ -10,7 +10,7 @@ HEADER = "From Coq Require Import ZArith List.\nFrom TV Require Import Common.Ha
 CASE_T = "C12.Corr.case"
 PROPS = ["C12/Props.v"]
 CLAUSE = {1: "stale-read", 2: "getter-ran-twice", 3: "change-not-notified", 4: "event-announces-stale-value"}
-PNAMES = ["scalar", "child", "kids", "dict", "set", "nums", "nested", "kidchild", "multi", "chain", "mitems", "sitems", "raw", "xscalar", "area"]
+PNAMES = ["scalar", "child", "kids", "dict", "set", "nums", "nested", "kidchild", "multi", "chain", "mitems", "sitems", "raw", "xscalar", "area", "maybe"]
 KEYS = ["ka", "kb", "kc"]
 
 
@@ -83,7 +83,7 @@ def nontrivial(case, obs):
 RELEVANT = {  # traits whose mutation matters for each property (steers the generator only)
     "scalar": ["value"], "child": ["child", "value"], "kids": ["kids", "value"], "dict": ["m", "value"],
     "set": ["s", "value"], "nums": ["nums"], "nested": ["child", "kids", "value"],
-    "kidchild": ["kids", "child", "value"], "multi": ["value", "child", "nums"], "chain": ["value"], "mitems": ["m"], "sitems": ["s"], "raw": ["raw"], "xscalar": ["value"], "area": ["value", "other"],
+    "kidchild": ["kids", "child", "value"], "multi": ["value", "child", "nums"], "chain": ["value"], "mitems": ["m"], "sitems": ["s"], "raw": ["raw"], "xscalar": ["value"], "area": ["value", "other"], "maybe": ["value"],
 }
 
 
@@ -155,7 +155,7 @@ def gen_case(rnd, ctx, maxlen):
                 item = (lambda: rnd.choice(hi)) if tr == "kids" else (lambda: rnd.randint(0, 4))
                 ln = lens[(i, tr)]
                 ch = rnd.choice(["Set", "Append", "Append", "Insert", "Pop", "SetItem", "SetSame", "Remove", "Clear",
-                                 "Extend", "Reverse"])
+                                 "Extend", "Reverse", "SetSlice"])
                 if ch == "Set":
                     v = [item() for _ in range(rnd.randint(0, 3))]
                     op = ["Set", i, tr, v]
@@ -182,6 +182,12 @@ def gen_case(rnd, ctx, maxlen):
                     lens[(i, tr)] = ln + len(v)
                 elif ch == "Reverse":
                     op = ["Reverse", i, tr]
+                elif ch == "SetSlice" and ln:
+                    # the items stay, their multiplicities change in ONE event (removed and added overlap)
+                    mult = [rnd.choice([0, 1, 1, 2, 3]) for _ in range(ln)]
+                    extra = [item() for _ in range(rnd.choice([0, 0, 1]))]
+                    op = ["SetSlice", i, tr, mult, extra]
+                    lens[(i, tr)] = sum(mult) + len(extra)
                 else:
                     op = ["Append", i, tr, item()]
                     lens[(i, tr)] = ln + 1
@@ -299,6 +305,21 @@ def corpus():
         cs.append(dict(prop="optdep", cached=cached, n=2, init=dup,
                        ops=[["Read"], ["Listen", "observe"], ["AddDep", 0, 4], ["Read"], ["Set", 0, "extra", 6], ["Read"],
                             ["Read"], ["Set", 0, "extra", 1], ["Read"]]))
+    # a getter that legitimately returns None, read repeatedly without a change in between
+    cs.append(dict(prop="maybe", cached=True, n=2, init=dup,
+                   ops=[["Set", 0, "value", 2], ["Read"], ["Read"], ["Read"], ["Listen", "observe"], ["Set", 0, "value", 3], ["Read"],
+                        ["Read"], ["Set", 0, "value", 4], ["Read"], ["Read"]]))
+    # a dependency that is an instance trait of the child: removed and added back (trait_added must re-hook it)
+    for cached in (True, False):
+        cs.append(dict(prop="dynchild", cached=cached, n=2, init=dup,
+                       ops=[["Read"], ["Listen", "observe"], ["Set", 1, "extra", 3], ["Read"], ["Set", 1, "extra", 0], ["Read"],
+                            ["ReAdd", 1], ["Read"], ["Set", 1, "extra", 5], ["Read"], ["Read"]]))
+    # one slice assignment changing the multiplicity of an item that stays, then removal of copies, then a change
+    for cached in (True, False):
+        cs.append(dict(prop="kids", cached=cached, n=2, init=dup,
+                       ops=[["Read"], ["Listen", "observe"], ["SetSlice", 0, "kids", [2, 1], []], ["Read"], ["Pop", 0, "kids", 0],
+                            ["Pop", 0, "kids", 0], ["Set", 1, "value", 3], ["Read"], ["Pop", 0, "kids", 0], ["Set", 1, "value", 4],
+                            ["Read"], ["Read"]]))
     # an inherited observed property redeclared in a subclass with another dependency
     cs.append(dict(prop="scalar", cached=True, redecl=True, n=2, init=dup,
                    ops=[["Read"], ["Set", 0, "value", 4], ["Read"], ["Set", 0, "other", 2], ["Read"], ["Listen", "observe"],
